@@ -92,8 +92,9 @@ def _run_unit_once(name, rlimit=None, extra_args=(), expanded_src=None, use_cach
     os.makedirs(os.path.join(BUILD, "units"), exist_ok=True)
     path = os.path.join(BUILD, "units", name + ".rs")
     text = u.text + CANARY
-    with open(path, "w") as f:
+    with open(path + ".tmp%d" % os.getpid(), "w") as f:
         f.write(text)
+    os.replace(path + ".tmp%d" % os.getpid(), path)     # atomic: a concurrent check never reads a half-written unit
     r.assumption_scan = scan_assumptions(u.text)
     if u.errors:
         r.undecided = "extraction: " + "; ".join(u.errors)
